@@ -218,6 +218,8 @@ def subspaces(tier):
                             continue
                         if t == '68000pad':
                             continue        # only differs from 68000 through the word ops of family (c)
+                        if t == 'avrargs' and 256 + 2 * sum(ns) > 4000:
+                            continue        # (the ATmega8 has 4K words of program memory: beyond that "address overflow" is the documented answer)
                         if not q and len(B) > 4 and style == 'one' and sp != ('none', 'none') and ns[1] not in B_Q:
                             continue
                         yield {'k': 'a', 't': t, 'ns': list(ns), 'seps': list(sp), 'style': style, 'org': 0 if t == 'default' else 0x100}
